@@ -63,7 +63,8 @@ TCall ==
 (*   - a failed *append* (the single-element operations at the end) leaves the container unchanged;              *)
 (*   - a failed positional emplace / erase / element write never changes the size (so no unfilled slot becomes   *)
 (*     visible), the contents of that container are unspecified afterwards;                                      *)
-(*   - range operations, whole-container assignments and constructors: contents unspecified, size <= capacity;   *)
+(*   - range operations and whole-container assignments: may stop half way, size <= capacity, but every visible   *)
+(*     element is still one the caller put there; constructors: the object does not come into being;             *)
 (*   - always: bystanders untouched, capacity as before (except whole-container assignment), object accounting.  *)
 AppendOps == {"EmplaceBack", "InsertMove", "InsertCopy", "PushBack"}
 InPlaceOps == {"EmplaceAt", "Erase", "SetAt"}
@@ -77,6 +78,11 @@ TThrew ==
                                 ELSE IF Ev.state[c].st = "absent" THEN Absent ELSE DirtyOf(Ev.state[c].cap)]
           /\ \A c \in C : Involved(c) /\ Ev.state[c].st # "absent" => Ev.state[c].size <= Ev.state[c].cap
           /\ (Ev.e \in InPlaceOps) => \A c \in C : Involved(c) /\ fv[c].st = "live" => Ev.state[c].size = fv[c].size
+          \* a throwing range operation / assignment may stop half way, but what it leaves visible are still only
+          \* elements the caller put there (the size never runs ahead of the slots that were filled)
+          /\ (Ev.e \in {"RangeInsert", "PushBackRange", "CopyAssign", "MoveAssign", "AssignList"}) =>
+               \A c \in C : Involved(c) /\ Ev.state[c].st # "absent" /\ fv[c].st # "dirty" =>
+                 \A k \in 1..Len(Ev.state[c].seq) : Ev.state[c].seq[k] \in Vals
           /\ \A c \in C : ~Involved(c) => (Ev.state[c].st = "absent") = (fv[c].st = "absent")
   /\ \A c \in C : fv[c].st # "absent" /\ fv'[c].st # "absent" /\ Ev.e \notin {"CopyAssign", "MoveAssign", "AssignList"} => fv'[c].cap = fv[c].cap
   /\ Ev.objs = ObjCount(fv') /\ Ev.bad = 0
